@@ -270,66 +270,56 @@ class _IntCalls(ast.NodeTransformer):
 class BoolFn(object):
     """Truth-table view of a rendered condition text (as produced by the interpreter's cond_text / EACH filters).
 
-    Atoms: equality of two terms (orientation and ==/!= normalised), `is` tests, isinstance(x, T) per class T, anything else by
-    its text.  `implies(atom)` / `implied_by(atoms)` are decided over all assignments of the atoms that occur."""
+    The text is read by its own structure (balanced brackets; ` or `, ` and `, `not `, comparison operators at the top level), so any
+    term syntax may occur inside the atoms.  Atoms: equality of two terms (orientation and ==/!= normalised), `is` / `in` tests,
+    isinstance(x, T) per class T, anything else by its text.  `implies(atom)` / `holds_when(atoms)` are decided over all assignments
+    of the atoms that occur."""
     def __init__(self, text):
         self.text = text
-        src = re.sub(r'\$(\d+)(?:\.(\d+))?', lambda m: '_B%s%s' % (m.group(1), ('_' + m.group(2)) if m.group(2) else ''), text)
-        try:
-            self.tree = ast.parse(src.strip(), mode='eval').body
-        except SyntaxError:
-            raise AnalysisError('condition is not a boolean expression the checker can read: %s' % text[:120])
         self.atoms = []
-        self.form = self._build(self.tree)
+        if not _balanced(text):
+            raise AnalysisError('condition is not a boolean expression the checker can read: %s' % text[:120])
+        self.form = self._build(text)
 
     @staticmethod
     def eq(a, b):
-        return ('eq', frozenset([BoolFn._canon(a), BoolFn._canon(b)]))
+        return ('eq', frozenset([strip_parens(a), strip_parens(b)]))
 
     @staticmethod
     def isinst(x, t):
-        return ('isinstance', BoolFn._canon(x), t)
-
-    @staticmethod
-    def _canon(t):
-        t = re.sub(r'\$(\d+)(?:\.(\d+))?', lambda m: '_B%s%s' % (m.group(1), ('_' + m.group(2)) if m.group(2) else ''), t)
-        try:
-            return ast.unparse(ast.parse(t.strip(), mode='eval').body)
-        except SyntaxError:
-            return t
+        return ('isinstance', strip_parens(x), t)
 
     def _atom(self, a):
         if a not in self.atoms:
             self.atoms.append(a)
         return ('atom', a)
 
-    def _build(self, n):
-        if isinstance(n, ast.BoolOp):
-            return ('and' if isinstance(n.op, ast.And) else 'or', [self._build(v) for v in n.values])
-        if isinstance(n, ast.UnaryOp) and isinstance(n.op, ast.Not):
-            return ('not', self._build(n.operand))
-        if isinstance(n, ast.Constant) and isinstance(n.value, bool):
-            return ('const', n.value)
-        if isinstance(n, ast.Compare) and len(n.ops) == 1:
-            l, r = ast.unparse(n.left), ast.unparse(n.comparators[0])
-            op = n.ops[0]
-            if isinstance(op, (ast.Eq, ast.NotEq)):
-                a = self._atom(('eq', frozenset([l, r])))
-                return a if isinstance(op, ast.Eq) else ('not', a)
-            if isinstance(op, (ast.Is, ast.IsNot)):
-                a = self._atom(('is', frozenset([l, r])))
-                return a if isinstance(op, ast.Is) else ('not', a)
-            if isinstance(op, (ast.In, ast.NotIn)):
-                a = self._atom(('in', l, r))
-                return a if isinstance(op, ast.In) else ('not', a)
-        if isinstance(n, ast.Call) and isinstance(n.func, ast.Name) and n.func.id == 'isinstance' and len(n.args) == 2 and not n.keywords:
-            x = ast.unparse(n.args[0])
-            ts = n.args[1].elts if isinstance(n.args[1], ast.Tuple) else [n.args[1]]
-            parts = [self._atom(('isinstance', x, ast.unparse(t).split('.')[-1])) for t in ts]
+    def _build(self, t):
+        t = strip_parens(t)
+        for word, kind in ((' or ', 'or'), (' and ', 'and')):
+            parts = _split_top(t, word)
+            if len(parts) > 1:
+                return (kind, [self._build(p) for p in parts])
+        if t.startswith('not '):
+            return ('not', self._build(t[4:]))
+        if t in ('True', 'False'):
+            return ('const', t == 'True')
+        for op, kind, neg in ((' == ', 'eq', False), (' != ', 'eq', True), (' is not ', 'is', True), (' is ', 'is', False),
+                              (' not in ', 'in', True), (' in ', 'in', False)):
+            parts = _split_top(t, op)
+            if len(parts) == 2:
+                l, r = strip_parens(parts[0]), strip_parens(parts[1])
+                a = self._atom((kind, frozenset([l, r])) if kind != 'in' else (kind, l, r))
+                return ('not', a) if neg else a
+        c = split_args(t)
+        if c is not None and c[0] == 'isinstance' and len(c[1]) == 2:
+            ts = c[1][1]
+            ts = [x.strip() for x in _split_top(ts[1:-1], ', ')] if ts.startswith('(') and ts.endswith(')') else [ts]
+            parts = [self._atom(('isinstance', strip_parens(c[1][0]), x.split('.')[-1])) for x in ts if x]
             return parts[0] if len(parts) == 1 else ('or', parts)
-        if isinstance(n, ast.Call) and isinstance(n.func, ast.Name) and n.func.id == 'bool' and len(n.args) == 1 and not n.keywords:
-            return self._build(n.args[0])
-        return self._atom(('expr', ast.unparse(n)))
+        if c is not None and c[0] == 'bool' and len(c[1]) == 1:
+            return self._build(c[1][0])
+        return self._atom(('expr', t))
 
     def _ev(self, f, asg):
         k = f[0]
@@ -540,4 +530,71 @@ def leaks(state, name, allowed_calls, ignore_targets=(), sanitizers=None, substr
         allargs = list(args) + list(kw.values())
         if any(mentions(strip_calls(a, sanitizers), name) for a in allargs):
             out.append(('call', '%s(%s)' % (ft, ', '.join(allargs)), line))
+    return out
+
+
+def captured_leaks(fi, state, name):
+    """Escapes of the secret that are not values at all: a deferred scope that closes over it and is kept (a lambda / nested function /
+    generator expression / class body assigned to an attribute or item, returned, or or-ed into the result), the message of an `assert`,
+    a snapshot of the local namespace (locals() / vars()).  Decided on the function's AST with the path's final environment telling which
+    locals hold the secret (def-use, not text): -> [(kind, text, line)]."""
+    tainted = {k for k, v in state.env.items() if re.match(r'^[A-Za-z_][A-Za-z0-9_]*$', k) and v is not None and mentions(render(v), name)}
+    if not tainted:
+        return []
+    node = fi.node
+    scopes = {}
+    for n in ast.walk(node):
+        if isinstance(n, (ast.FunctionDef, ast.AsyncFunctionDef, ast.ClassDef)) and n is not node:
+            scopes[n.name] = n
+
+    def free_tainted(d):
+        bound = set()
+        if isinstance(d, (ast.Lambda, ast.FunctionDef, ast.AsyncFunctionDef)):
+            a = d.args
+            bound = {x.arg for x in a.posonlyargs + a.args + a.kwonlyargs} | ({a.vararg.arg} if a.vararg else set()) | ({a.kwarg.arg} if a.kwarg else set())
+            inner = list(a.defaults) + [k for k in a.kw_defaults if k is not None]       # evaluated now, kept with the function
+            hits = {x.id for e in inner for x in ast.walk(e) if isinstance(x, ast.Name) and x.id in tainted}
+            body = d.body if isinstance(d.body, list) else [d.body]
+        elif isinstance(d, ast.ClassDef):
+            hits, body = set(), d.body
+        else:
+            hits = set()
+            for g in d.generators:
+                bound |= {x.id for x in ast.walk(g.target) if isinstance(x, ast.Name)}
+            body = [d]
+        for b in body:
+            for x in ast.walk(b):
+                if isinstance(x, ast.Name) and isinstance(x.ctx, ast.Load) and x.id in tainted and x.id not in bound:
+                    hits.add(x.id)
+        return hits
+
+    def deferred_in(expr):
+        out = []
+        for x in ast.walk(expr):
+            if isinstance(x, (ast.Lambda, ast.GeneratorExp)):
+                out.append(x)
+            elif isinstance(x, ast.Name) and isinstance(x.ctx, ast.Load) and x.id in scopes:
+                out.append(scopes[x.id])
+        return out
+
+    out = []
+    for n in ast.walk(node):
+        kept = None
+        if isinstance(n, (ast.Assign, ast.AugAssign, ast.AnnAssign)) and getattr(n, 'value', None) is not None:
+            tg = n.targets if isinstance(n, ast.Assign) else [n.target]
+            flat = [e for t in tg for e in (t.elts if isinstance(t, (ast.Tuple, ast.List)) else [t])]
+            if any(isinstance(t, (ast.Attribute, ast.Subscript)) for t in flat) or \
+                    (isinstance(n, ast.AugAssign) and isinstance(n.op, ast.BitOr)):
+                kept = n.value
+        elif isinstance(n, ast.Return) and n.value is not None:
+            kept = n.value
+        if kept is not None:
+            for d in deferred_in(kept):
+                h = free_tainted(d)
+                if h:
+                    out.append(('closure', '%s keeps %s' % (ast.unparse(n)[:120], sorted(h)), n.lineno))
+        if isinstance(n, ast.Assert) and n.msg is not None and any(isinstance(x, ast.Name) and x.id in tainted for x in ast.walk(n.msg)):
+            out.append(('assert', ast.unparse(n)[:160], n.lineno))
+        if isinstance(n, ast.Call) and isinstance(n.func, ast.Name) and n.func.id in ('locals', 'vars') and not n.args and not n.keywords:
+            out.append(('locals', 'the local namespace (which holds the secret) is captured by %s()' % n.func.id, n.lineno))
     return out
